@@ -628,6 +628,10 @@ def mask_parameter_bits(ctx, S, q, rp):
     """Each declared bit of each parameterised mask: the parameter parser run on exactly that bit consumes the words and
     delivers the operand variants the pinned grammar lists; on 0 it consumes nothing."""
     snap = json.load(open(os.path.join(VERIF, "reference", "snapshot.json")))["operand_params"]["parse_arguments"]
+    pc_ = [S.mf.parse_item(x[2]) for x in S.mf.find("parse_operand") if "autogen_parse_operand" in x[0] and "closure" not in x[0]]
+    pfn = pc_[0] if len(pc_) == 1 else None
+    kd = S.registry.lookup("syntax::OperandKind")
+    kind_disc = dict(kd["variants"]) if kd else {}
     for fname in MASK_ARG_FNS:
         c = [x for x in S.mf.find(fname) if "closure" not in x[0]]
         if len(c) != 1:
@@ -698,3 +702,25 @@ def mask_parameter_bits(ctx, S, q, rp):
                 real = rp.ask("operand_params %s %d" % (kind, bitv))
                 ctx.violation("parser/mask-parameters/%s/%s" % (kind, nm), "%s::%s: parameter parser delivers %s, the grammar lists %s" % (
                     kind, nm, real.get("parsed"), exp), {"cmd": "operand_params %s %d" % (kind, bitv), "real": real})
+                continue
+            # the same through `parse_operand(kind)` itself (the arm that calls the parameter parser), with the mask word in the stream
+            if pfn is not None and kind_disc.get(kind) is not None:
+                eng2 = S.engine(loop_bound=6)
+                mem2 = {("h", "p"): S.parser_value(off, None, z3.BitVecVal(1, 64))}
+                try:
+                    res2 = eng2.run(pfn, [sym.Ref(("h", "p"), (), True), z3.BitVecVal(kind_disc[kind], 64)], mem=mem2,
+                                    pc=[z3.ULE(S.LEN, 1 << 24), z3.ULE(off + 4 * (2 + len(exp)), S.LEN), z3.Select(S.MEM, off) == z3.BitVecVal(bitv, 32)])
+                except mir.Unsupported as ex:
+                    ctx.ob("mask-args/%s/%s/via-parse_operand" % (kind, nm), None, "not encodable: %s" % str(ex)[:160])
+                    continue
+                oks2 = [r for r in res2 if r.status == "return" and r.value.variant == "Ok"]
+                shapes2 = set(tuple(o.variant for o in r.value.fields[0].items) for r in oks2)
+                good2 = shapes2 == {tuple([kind] + exp)}
+                ctx.ob("mask-args/%s/%s/via-parse_operand" % (kind, nm), True if good2 else False, None if good2 else "delivers %s, expected %s" % (sorted(shapes2), [kind] + exp))
+                if not good2:
+                    real = rp.ask("operand_params %s %d" % (kind, bitv))
+                    if real.get("parsed") == exp:
+                        ctx.inconclusive.append(("mask-args/%s/%s/via-parse_operand" % (kind, nm), "model-only: the compiled crate parses %s" % real.get("parsed")))
+                    else:
+                        ctx.violation("parser/mask-parameters/%s/%s" % (kind, nm), "%s::%s: parse_operand delivers %s after the mask, the grammar lists %s" % (
+                            kind, nm, real.get("parsed"), exp), {"cmd": "operand_params %s %d" % (kind, bitv), "real": real})
